@@ -19,6 +19,7 @@ import (
 	"bytes"
 	"fmt"
 	"io"
+	"sync/atomic"
 	"testing"
 	"time"
 
@@ -118,6 +119,7 @@ type vf28Case struct {
 }
 
 type vf28Run struct {
+	hang      bool
 	pre, post []byte // client wire bytes before / after the call point
 	ks        [][]byte
 	ksErr     []error
@@ -154,8 +156,26 @@ func vf28ReadN(r io.Reader, n int) ([]byte, error) {
 	return buf, err
 }
 
-// vf28Execute runs the case; callKS=false is the twin.
-func vf28Execute(c *vf28Case, callKS bool) (res *vf28Run) {
+// vf28Execute runs the case; callKS=false is the twin. A run that does not come back (a call blocked on something
+// no I/O deadline can break, e.g. a mutex left locked) is reported as a failed run, attributed to the stage it reached.
+func vf28Execute(c *vf28Case, callKS bool) *vf28Run {
+	var stage atomic.Int32
+	done := make(chan *vf28Run, 1)
+	go func() { done <- vf28ExecuteInner(c, callKS, &stage) }()
+	select {
+	case r := <-done:
+		return r
+	case <-time.After(vfIOTimeout + 15*time.Second):
+		r := &vf28Run{hang: true, err: fmt.Errorf("a call on the connection did not return within %v (blocked %s)", vfIOTimeout+15*time.Second,
+			map[int32]string{0: "before the GetOutKeystream calls", 1: "in GetOutKeystream", 2: "in the writes after GetOutKeystream"}[stage.Load()])}
+		if stage.Load() >= 1 {
+			r.ks = [][]byte{} // reached the call point
+		}
+		return r
+	}
+}
+
+func vf28ExecuteInner(c *vf28Case, callKS bool, stage *atomic.Int32) (res *vf28Run) {
 	res = &vf28Run{}
 	scfg := vfServerConfig(c.Suite.keyType, "example.test")
 	scfg.MinVersion, scfg.MaxVersion = c.Suite.vers, c.Suite.vers
@@ -246,6 +266,7 @@ func vf28Execute(c *vf28Case, callKS bool) (res *vf28Run) {
 			return
 		}
 	}
+	stage.Store(1)
 	if callKS {
 		for _, n := range c.Ns {
 			ks, err := p.Cli.GetOutKeystream(n)
@@ -253,6 +274,7 @@ func vf28Execute(c *vf28Case, callKS bool) (res *vf28Run) {
 			res.ksErr = append(res.ksErr, err)
 		}
 	}
+	stage.Store(2)
 	res.pre = p.CP.Written()
 	for _, size := range c.Post {
 		msg, err := send(size)
@@ -358,6 +380,9 @@ func vf28Check(st *vfStats, t vfFataler, c *vf28Case) {
 	desc := fmt.Sprintf("%v", vf28Describe(c))
 	st.Eval()
 	prim := vf28Execute(c, true)
+	if prim.hang {
+		st.Violation(t, "%s: session with GetOutKeystream%v: %v", desc, c.Ns, prim.err)
+	}
 	if prim.err != nil && prim.ks == nil {
 		// failed before the call point: the scaffolding (handshake / plain transfer) is not C28's subject, but a
 		// failure here means the case tested nothing; it must not happen on a healthy tree.
